@@ -112,6 +112,12 @@ QNcFixed == <<
   MkDecl(32, <<>>, NameFields(<< L(<< <<0, 15>>, <<16, 31>> >>), LS(<< <<0, 15>>, <<16, 31>> >>), L(<< <<0, 7>>, <<8, 15>> >>) >>), <<>>, <<>>, FALSE),
   MkDecl(64, <<>>, NameFields(<< L(<< <<0, 31>>, <<32, 63>> >>), LS(<< <<0, 0>>, <<1, 63>> >>) >>), <<>>, <<>>, FALSE),
   MkDecl(128, <<>>, NameFields(<< L(<< <<0, 63>>, <<64, 127>> >>), LS(<< <<0, 63>>, <<64, 127>> >>), L(<< <<0, 31>>, <<32, 63>> >>) >>), <<>>, <<>>, FALSE),
+  (* full-width lists that START at bit 0 but are not the identity permutation *)
+  MkDecl(8, <<>>, NameFields(<< L(<< <<0, 0>>, <<2, 7>>, <<1, 1>> >>), LS(<< <<0, 3>>, <<6, 7>>, <<4, 5>> >>) >>), <<>>, <<>>, FALSE),
+  MkDecl(16, <<>>, NameFields(<< L(<< <<0, 3>>, <<8, 15>>, <<4, 7>> >>), LS(<< <<0, 0>>, <<15, 15>>, <<1, 14>> >>) >>), <<>>, <<>>, FALSE),
+  MkDecl(32, <<>>, NameFields(<< L(<< <<0, 7>>, <<16, 31>>, <<8, 15>> >>), LS(<< <<0, 15>>, <<24, 31>>, <<16, 23>> >>) >>), <<>>, <<>>, FALSE),
+  MkDecl(64, <<>>, NameFields(<< L(<< <<0, 7>>, <<32, 63>>, <<8, 31>> >>) >>), <<>>, <<>>, FALSE),
+  MkDecl(128, <<>>, NameFields(<< L(<< <<0, 0>>, <<64, 127>>, <<1, 63>> >>), LS(<< <<0, 31>>, <<96, 127>>, <<32, 95>> >>) >>), <<>>, <<>>, FALSE),
   MkDecl(100, <<>>, NameFields(<< L(<< <<64, 99>>, <<0, 63>> >>), LS(<< <<92, 99>>, <<0, 7>>, <<40, 55>> >>), L(<< <<99, 99>>, <<0, 0>> >>),
                                   LA(<< <<0, 1>>, <<50, 51>> >>, 25, 2) >>), <<>>, <<>>, FALSE)
   >>
